@@ -16,6 +16,7 @@ import (
 	"github.com/kercylan98/vivid/internal/mailbox"
 	"github.com/kercylan98/vivid/internal/messages"
 	"github.com/kercylan98/vivid/internal/sugar"
+	"github.com/kercylan98/vivid/internal/verifhook"
 	"github.com/kercylan98/vivid/pkg/log"
 	"github.com/kercylan98/vivid/pkg/metrics"
 	"github.com/kercylan98/vivid/pkg/ves"
@@ -248,7 +249,9 @@ func (c *Context) Entrust(timeout time.Duration, task vivid.EntrustTask) vivid.F
 	}
 
 	futureIns := future.NewFuture[vivid.Message](c, timeout, nil)
+	verifhook.Yield("ctx.entrust.go", c)
 	go func() {
+		verifhook.Yield("ctx.entrust.start", c)
 		defer func() {
 			if r := recover(); r != nil {
 				switch r := r.(type) {
@@ -278,7 +281,9 @@ func (c *Context) PipeTo(recipient vivid.ActorRef, message vivid.Message, forwar
 		return pipeId
 	}
 
+	verifhook.Yield("ctx.pipe.go", c)
 	go func(c *Context, pipeId string, future vivid.Future[vivid.Message]) {
+		verifhook.Yield("ctx.pipe.start", c)
 		var pipeResult = &vivid.PipeResult{
 			Id: pipeId,
 		}
@@ -291,6 +296,7 @@ func (c *Context) PipeTo(recipient vivid.ActorRef, message vivid.Message, forwar
 			}
 			c.tell(false, forwarder, pipeResult)
 		}
+		verifhook.Yield("ctx.pipe.exit", c)
 
 	}(c, pipeId, pipeFuture)
 	return pipeId
